@@ -28,6 +28,10 @@ def parse_contract(fn):
 
 
 def run(spec):
+    if spec.get("ignore_known"):
+        # replaying the recorded witness of a known finding: its own exclusion predicate must not apply
+        import engine.harness_api as api
+        api._KF = {"findings": [], "fixed": []}
     mod = importlib.import_module(spec["module"])
     mod.CASE = spec.get("case") or {}
     fn = getattr(mod, spec["fn"])
